@@ -34,10 +34,26 @@ Oracles (none of them looks at the code under test):
   The image clause is the literal one; a finding key carries ``drift-ge-half-px`` when the construction itself
   moves some destination pixel centre by >= 0.45 source pixel (|s/n-1| * dst length + |residue|): there the
   tolerance the caller asked for is larger than what pixel identity can absorb.
+* coordinate systems without an EPSG code (``crs-pairs`` slice): the complete product source CRS x destination CRS over
+  custom LAEA (two centres) / sinusoidal / Albers proj strings, ESRI:54009, ESRI:54008, the WKT spelling of a custom and
+  of an ESRI CRS and two EPSG codes (and, on a degree grid, over custom sphere / Bessel longlat, 4326, 4283), on pixel grids that line up exactly (scale 1 and 2, whole-pixel shift, residue within
+  ttol), x which of the two CRS objects had ``.epsg`` read before planning (the lazily resolved EPSG slot is state of the
+  CRS object).  Oracle: two CRSs are the same only when they were built from the same definition (or its WKT spelling);
+  every other pair is "another CRS": paste must not be reported.  Same-definition pairs go through all image clauses.
+* call histories (``call-history`` slice): every sequence of 0, 1 and 2 prior public calls - ``rio_reproject`` /
+  ``xr_reproject`` with unusual keyword options (init_dest_nodata, INIT_DEST, XSCALE/YSCALE, src/dst nodata, threads,
+  memory limit, tolerance, ...) and ``compute_reproject_roi`` with unusual planner options - before the standard
+  plan + paste-vs-nearest-warp comparison, each history in a forked copy of the worker that is discarded afterwards.
+  Direct oracle: all clauses above hold before and after the history (so state left behind by anything earlier cannot
+  hide a defect); differential oracle: plan and warped image are identical to those obtained for the same pair before
+  the history.
 """
 from __future__ import annotations
 
 import itertools
+import os
+import pickle
+import traceback
 
 import numpy as np
 from affine import Affine
@@ -69,6 +85,58 @@ GRIDS = {
 # dst CRS variants: "same" (same string), "wkt" (same CRS spelled as WKT), others = different CRS
 OTHER_CRS = {"EPSG:32633": ("EPSG:32634", "EPSG:3857"), "EPSG:4326": ("EPSG:4283", "EPSG:3857"),
              "EPSG:3857": ("EPSG:3395", "EPSG:32633")}
+
+# coordinate systems for the crs-pairs slice.  Different names = genuinely different coordinate systems (different
+# projection method or different projection centre / ellipsoid); "wkt:<name>" = the same CRS spelled as WKT.
+# Grid M-5km sits next to the natural origin of all the projected ones (x in [-100, -65] km, y in [45, 75] km).
+CRS_DEFS = {
+    "laea-a": "+proj=laea +lat_0=2 +lon_0=21 +x_0=0 +y_0=0 +datum=WGS84 +units=m +no_defs +type=crs",
+    "laea-b": "+proj=laea +lat_0=-3 +lon_0=19 +x_0=0 +y_0=0 +datum=WGS84 +units=m +no_defs +type=crs",
+    "sinu": "+proj=sinu +lon_0=20 +x_0=0 +y_0=0 +R=6371007.181 +units=m +no_defs +type=crs",
+    "aea": "+proj=aea +lat_0=4 +lon_0=20 +lat_1=2 +lat_2=8 +x_0=0 +y_0=0 +datum=WGS84 +units=m +no_defs +type=crs",
+    "moll": "ESRI:54009",
+    "esri-sinu": "ESRI:54008",
+    "3857": "EPSG:3857",
+    "32633": "EPSG:32633",
+    # geographic (grid G-0.1deg): a sphere, the Bessel ellipsoid, WGS84, GDA94
+    "ll-sphere": "+proj=longlat +R=6371007.181 +no_defs +type=crs",
+    "ll-bessel": "+proj=longlat +ellps=bessel +no_defs +type=crs",
+    "4326": "EPSG:4326",
+    "4283": "EPSG:4283",
+}
+CRS_NAMES_M = ("laea-a", "laea-b", "sinu", "aea", "moll", "esri-sinu", "3857", "32633", "wkt:laea-a", "wkt:moll")
+CRS_NAMES_G = ("ll-sphere", "ll-bessel", "4326", "4283", "wkt:ll-sphere")
+CRS_NOEPSG = ("laea-a", "laea-b", "sinu", "aea", "moll", "esri-sinu", "ll-sphere", "ll-bessel")
+XGRIDS = {"M-5km": Affine(5000.0, 0.0, -100000.0, 0.0, -5000.0, 75000.0), "G-0.1deg": GRIDS["R-deg0.1"][0]}
+assert set(n.split(":")[-1] for n in CRS_NAMES_M + CRS_NAMES_G) == set(CRS_DEFS)
+EPSG_READ = ("fresh", "src", "dst", "src+dst")  # which CRS object had .epsg read before planning
+
+
+_CRS_TEXT = {}
+_CRS_READ = {}
+
+
+def _fresh_crs(name, read=False):
+    """a NEW CRS object; read=False: its lazily resolved EPSG slot is untouched; read=True: ``.epsg`` has been read (the
+    database search behind it costs ~30 ms for a custom CRS, so it is done once per process and definition and the
+    object is then duplicated with the copy constructor, which carries the resolved slot over)"""
+    txt = _CRS_TEXT.get(name)
+    if txt is None:
+        txt = _CRS_TEXT[name] = CRS(CRS_DEFS[name[4:]]).to_wkt() if name.startswith("wkt:") else CRS_DEFS[name]
+    if not read:
+        return CRS(txt)
+    c = _CRS_READ.get(name)
+    if c is None:
+        c = _CRS_READ[name] = CRS(txt)
+        _ = c.epsg  # resolves (and stores) the EPSG code of this CRS object: None for the custom ones
+    return CRS(c)
+
+
+def crs_pair_class(sname, dname):
+    a, b = (n.split(":")[-1] for n in (sname, dname))
+    n = (a in CRS_NOEPSG) + (b in CRS_NOEPSG)
+    return ("same-def" if a == b else "differ") + ":" + ("noepsg-both", "noepsg-one", "epsg-both")[2 - n]
+
 
 # (ttol, stol); id 0 = the documented defaults, passed to the code by NOT passing them
 TOLS = {0: (0.05, 1e-3), 1: (0.2, 1e-3), 2: (0.05, 1e-2), 3: (0.005, 1e-4)}
@@ -206,7 +274,12 @@ def build(case):
     """-> dict with geoboxes, predicted eligibility and the whole-pixel overview-space map."""
     grid, crsv, dshape, sxs, sys_, mirror, rot, shift, res, tol = case[:10]
     ttol, stol = TOLS[tol]
-    S, crs_s = GRIDS[grid]
+    xcrs = None
+    if isinstance(grid, tuple):  # (<XGRIDS name>, <source CRS name>) with crsv = ("x", <destination CRS name>, <EPSG_READ>)
+        assert crsv[0] == "x", case
+        S, xcrs = XGRIDS[grid[0]], (grid[1], crsv[1], crsv[2])
+    else:
+        S, crs_s = GRIDS[grid]
     src_shape = tuple(case[12]) if len(case) > 12 else SRC_SHAPE
     ny, nx = dshape
     mx, my = mirror
@@ -231,15 +304,17 @@ def build(case):
     else:
         raise ValueError(rot)
 
-    if crsv == "same":
-        crs_d = crs_s
+    if xcrs is not None:
+        same_crs = xcrs[0].split(":")[-1] == xcrs[1].split(":")[-1]  # same definition (or its WKT spelling)
+    elif crsv == "same":
+        crs_d, same_crs = crs_s, True
     elif crsv == "wkt":
-        crs_d = "wkt:" + crs_s
+        crs_d, same_crs = "wkt:" + crs_s, True
     else:
-        crs_d = crsv
+        crs_d, same_crs = crsv, False
 
     # predicted eligibility - from the construction parameters only
-    if crsv not in ("same", "wkt"):
+    if not same_crs:
         reason = "cross-crs"
     elif rot != "none":
         reason = "rotation" if rot.startswith("rot") else "shear"
@@ -258,8 +333,17 @@ def build(case):
     drift = 0.0
     if reason is None:
         drift = max(abs(sx / kx - 1) * nx + abs(rx), abs(sy / ky - 1) * ny + abs(ry))
-    src_g = GeoBox(src_shape, S, _crs(crs_s))
-    dst_g = GeoBox(dshape, S * A, _crs(crs_d))
+    if xcrs is None:
+        src_g = GeoBox(src_shape, S, _crs(crs_s))
+        dst_g = GeoBox(dshape, S * A, _crs(crs_d))
+        crscls = None
+    else:
+        assert xcrs[2] in EPSG_READ
+        rd = xcrs[2].split("+")
+        src_g = GeoBox(src_shape, S, _fresh_crs(xcrs[0], "src" in rd))
+        dst_g = GeoBox(dshape, S * A, _fresh_crs(xcrs[1], "dst" in rd))
+        assert src_g.crs is not dst_g.crs
+        crscls = crs_pair_class(xcrs[0], xcrs[1])
     kw = {} if tol == 0 else {"ttol": ttol, "stol": stol}
     optcls = None
     if len(case) > 11 and case[11] != (None, None):
@@ -273,7 +357,8 @@ def build(case):
                 k=kx if (kx is not None and kx == ky) else None, ttol=ttol, stol=stol, rot=rot,
                 exact=(res == (("t", 0.0), ("t", 0.0)) and sxs[1] == "0" and sys_[1] == "0"),
                 scale_dev=(sxs[1] != "0" or sys_[1] != "0"), optcls=optcls, src_shape=src_shape,
-                ambiguous=(reason is None and (okx is None or oky is None)), drift=drift)
+                ambiguous=(reason is None and (okx is None or oky is None)), drift=drift, crscls=crscls,
+                epsg_read=None if xcrs is None else xcrs[2])
 
 
 def _sl(roi):
@@ -292,6 +377,9 @@ def _placement(roi_dst, dshape):
 def describe(case, b, rr=None):
     s = (f"src=GeoBox({b['src_shape']}, {tuple(b['src_g'].transform)[:6]}, {b['src_g'].crs!s:.20}) "
          f"dst=GeoBox({b['dst_g'].shape.yx}, src.affine*Affine{tuple(b['A'])[:6]}) kwargs={b['kw']} case={case!r}")
+    if b["crscls"] is not None:
+        s += (f" [src crs = CRS_DEFS[{case[0][1]!r}], dst crs = CRS_DEFS[{case[1][1]!r}] ('wkt:' = spelled as WKT), "
+              f".epsg read beforehand on: {b['epsg_read']}]")
     if rr is not None:
         s += f" -> paste_ok={rr.paste_ok} read_shrink={rr.read_shrink} roi_src={_sl(rr.roi_src)} roi_dst={_sl(rr.roi_dst)}"
     return s
@@ -300,11 +388,15 @@ def describe(case, b, rr=None):
 # ---------------------------------------------------------------------------------------------
 # the judge (shared by all slices)
 # ---------------------------------------------------------------------------------------------
-def run_case(case):
+def run_case(case, probe=None):
+    """probe: optional dict that receives the plan ("plan") and the warped image ("warp") for differential oracles"""
     dt = case[10]
     dshape = case[2]
     b = build(case)
     rr = compute_reproject_roi(b["src_g"], b["dst_g"], **b["kw"])
+    if probe is not None:
+        probe["plan"] = (bool(rr.paste_ok), rr.read_shrink, _sl(rr.roi_src), _sl(rr.roi_dst))
+        probe["desc"] = describe(case, b, rr)
     reason = b["reason"]
     mname = MIRROR_NAME[(b["mx"], b["my"])]
     paste = bool(rr.paste_ok)
@@ -318,6 +410,8 @@ def run_case(case):
     elif optcls is not None:
         pad, al = case[11]
         ogrp = "|opt-" + ("+".join(n for n, v in (("padded", pad), ("aligned", al)) if v) or "tight")
+    elif b["crscls"] is not None:
+        ogrp = "|crs-" + b["crscls"]
     r = R(
         outcome=f"{'paste' if paste else 'no-paste'}|{reason or ('ambiguous' if b['ambiguous'] else 'eligible')}|shrink{min(int(rs), 4)}|{place}{ogrp}",
         nontrivial=(reason is not None) or (paste and place != "disjoint"),
@@ -331,7 +425,8 @@ def run_case(case):
     # ---- clause 3: reported only for eligible pairs -------------------------------------------
     if reason is not None:
         kcls = f"k{b['k']}" if b["k"] is not None else "k-"
-        r.fail(f"paste_ok:reported-for:{reason}:{kcls}:tol{case[9]}",
+        xsfx = "" if b["crscls"] is None else f":{b['crscls']}:epsg-read-{b['epsg_read']}"
+        r.fail(f"paste_ok:reported-for:{reason}:{kcls}:tol{case[9]}{xsfx}",
                f"paste_ok=True although the pair is not paste-able ({reason}; ttol={b['ttol']} stol={b['stol']}): "
                + describe(case, b, rr))
 
@@ -359,6 +454,8 @@ def run_case(case):
         dst = np.full(dshape, junk, dtype=src.dtype)
         got = rio_reproject(src, dst, b["src_g"], b["dst_g"], resampling="nearest", dst_nodata=nodata)
         r.counts = {"warps": 1}
+        if probe is not None:
+            probe["warp"] = got
         same = got.dtype == expect.dtype and got.shape == expect.shape and (
             np.array_equal(got, expect, equal_nan=True) if got.dtype.kind == "f" else np.array_equal(got, expect))
         if not same:
@@ -400,6 +497,188 @@ def run_case(case):
     if b["k"] is not None and rs != b["k"]:
         r.counts = dict(r.counts, **{"read_shrink-differs-from-k": 1})
     return r
+
+
+# ---------------------------------------------------------------------------------------------
+# call histories
+# ---------------------------------------------------------------------------------------------
+# keyword option sets of a prior warp call (all are accepted by rasterio.warp.reproject / GDAL)
+OPTSETS = {
+    "plain": {},
+    "init_dest_nodata=False": {"init_dest_nodata": False},  # the mosaicking idiom
+    "init_dest_nodata=True": {"init_dest_nodata": True},
+    "INIT_DEST=0": {"INIT_DEST": "0"},
+    "XYSCALE=2": {"XSCALE": 2, "YSCALE": 2},
+    "XSCALE=1": {"XSCALE": 1},
+    "num_threads=2": {"num_threads": 2},
+    "warp_mem_limit=64": {"warp_mem_limit": 64},
+    "tolerance=0.5": {"tolerance": 0.5},
+    "SKIP_NOSOURCE": {"SKIP_NOSOURCE": "YES"},
+    "UNIFIED_SRC_NODATA": {"UNIFIED_SRC_NODATA": "YES"},
+    "SAMPLE_GRID": {"SAMPLE_GRID": "YES"},
+    "src_nodata=33": {"src_nodata": 33},  # a value that occurs in the auxiliary source
+    "dst_nodata=0": {"dst_nodata": 0},
+}
+PLAN_CALLS = ("loose-tol", "pad-align", "cross-crs", "rotated")
+WARP_CALLS = tuple(itertools.product(("rio", "xr"), ("nearest", "bilinear"), OPTSETS))
+CALLS = WARP_CALLS + tuple(("plan", n) for n in PLAN_CALLS)
+# reduced alphabet for the length-2 histories of the quick tier: the unusual resampling only
+CALLS_Q2 = tuple(c for c in WARP_CALLS if c[1] == "bilinear") + tuple(("plan", n) for n in PLAN_CALLS)
+
+_AUX = {}
+
+
+def _aux():
+    """auxiliary pair used by the prior calls: uint8 (5,6) source, (7,7) destination at scale 1.5 with a fractional shift"""
+    if not _AUX:
+        from odc.geo.xr import wrap_xr
+
+        S = GRIDS["D-utm10"][0] * Affine.translation(40, -25)
+        sg = GeoBox((5, 6), S, _crs("EPSG:32633"))
+        img = (np.arange(30).reshape(5, 6) * 3 + 3).astype("uint8")
+        assert 33 in img and 250 not in img and 0 not in img
+        _AUX.update(
+            sg=sg, img=img, xr=wrap_xr(img, sg, nodata=250),
+            dg=GeoBox((7, 7), S * Affine.translation(-1.3, 0.6) * Affine.scale(1.5), _crs("EPSG:32633")),
+            plan={
+                "loose-tol": (GeoBox((7, 7), S * Affine(1.2, 0, 0.3, 0, 1.2, -0.3), _crs("EPSG:32633")), {"ttol": 0.45, "stol": 0.3}),
+                "pad-align": (GeoBox((7, 7), S * Affine.translation(-1, 1), _crs("EPSG:32633")), {"padding": 2, "align": 4}),
+                "cross-crs": (GeoBox((7, 7), S, _crs("EPSG:32634")), {}),
+                "rotated": (GeoBox((7, 7), S * Affine.rotation(30.0), _crs("EPSG:32633")), {"ttol": 0.2}),
+            },
+        )
+    return _AUX
+
+
+def prior_call(call):
+    """one earlier public call of the process; its result is not judged (it is history, not the subject)"""
+    a = _aux()
+    if call[0] == "plan":
+        dg, kw = a["plan"][call[1]]
+        compute_reproject_roi(a["sg"], dg, **kw)
+        return
+    api, resampling, optname = call
+    kw = dict(OPTSETS[optname])
+    if api == "rio":
+        kw.setdefault("dst_nodata", 250)
+        rio_reproject(a["img"], np.full((7, 7), 9, dtype="uint8"), a["sg"], a["dg"], resampling, **kw)
+    else:
+        from odc.geo.xr import xr_reproject
+
+        xr_reproject(a["xr"], a["dg"], resampling=resampling, **kw)
+
+
+def call_class(call):
+    return "plan:" + call[1] if call[0] == "plan" else call[2]
+
+
+_T9 = (("t", 0.9), ("t", -0.9))
+_Z2 = (("t", 0.0), ("t", 0.0))
+
+
+def history_bases(dtypes):
+    """the standard comparisons made after a history: destination larger than / overlapping / disjoint from the source
+    (always with pixels outside the source footprint), a pair that is NOT paste-able, and one with read_shrink 2"""
+    out = []
+    for dt in dtypes:
+        out += [
+            ("D-utm10", "same", (8, 9), (1, "0"), (1, "0"), (1, 1), "none", (-1, -1), _T9, 0, dt),
+            ("D-utm10", "same", (5, 5), (1, "0"), (1, "0"), (-1, -1), "none", (3, -2), _Z2, 0, dt),
+            ("D-utm10", "same", (3, 10), (1, "0"), (1, "0"), (1, 1), "none", (-12, 0), _Z2, 0, dt),
+        ]
+    out += [
+        ("D-utm10", "same", (8, 9), (1, "0"), (1, "0"), (1, 1), "none", (-1, -1), (("a", 0.3), ("a", 0.3)), 0, "int16"),
+        ("D-utm10", "same", (5, 5), (2, "0"), (2, "0"), (1, 1), "none", (-1, 0), _Z2, 0, "int16"),
+    ]
+    return tuple(out)
+
+
+def gen_history(tier):
+    th = tier == "thorough"
+    full = history_bases(DTYPES)
+    few = full if th else tuple(  # int16 larger dst, int8 mirrored overlap, float32 disjoint, not paste-able, read_shrink 2
+        b for b in full if (b[10], b[2]) in (("int8", (5, 5)), ("float32", (3, 10))) or (b[10] == "int16" and b[2] == (8, 9))
+        or b[3][0] == 2)
+    two = CALLS if th else CALLS_Q2
+
+    def gen():
+        for h in ((),) + tuple((c,) for c in CALLS):
+            for base in full:
+                yield (h, base)
+        for h in itertools.product(two, two):
+            for base in few:
+                yield (h, base)
+
+    return gen
+
+
+def _same_img(a, b):
+    return a.dtype == b.dtype and a.shape == b.shape and (
+        np.array_equal(a, b, equal_nan=True) if a.dtype.kind == "f" else np.array_equal(a, b))
+
+
+def run_history(case):
+    """Each history runs in a forked copy of the worker, which is thrown away afterwards: the history starts from the
+    state the worker has (no case of this check ever passes an unusual option in the worker itself), whatever the calls
+    leave behind cannot reach another case, and a replay in a new process sees the same thing."""
+    rfd, wfd = os.pipe()
+    pid = os.fork()
+    if pid == 0:  # child
+        code = 1
+        try:
+            os.close(rfd)
+            try:
+                payload = ("R", e1._judge(_HISTORY_INNER, case))  # exceptions from the tree under verification -> finding
+            except BaseException:  # pylint: disable=broad-except
+                payload = ("harness-error", traceback.format_exc())
+            with os.fdopen(wfd, "wb") as f:
+                pickle.dump(payload, f, protocol=4)
+            code = 0
+        finally:
+            os._exit(code)
+    os.close(wfd)
+    with os.fdopen(rfd, "rb") as f:
+        data = f.read()
+    _, status = os.waitpid(pid, 0)
+    if status != 0 or not data:
+        raise RuntimeError(f"call-history child for {case!r} ended with wait status {status} and {len(data)} bytes of result")
+    kind, val = pickle.loads(data)
+    if kind != "R":
+        raise RuntimeError(f"harness error in the call-history child for {case!r}:\n{val}")
+    return val
+
+
+def _run_history(case):
+    hist, base = case
+    p0, p1 = {}, {}
+    r0 = run_case(base, p0)  # the process as it is (fresh on a sound tree, whatever the worker did before)
+    w0 = p0["warp"].copy() if "warp" in p0 else None
+    for call in hist:
+        prior_call(call)
+    r1 = run_case(base, p1)
+    hcls = "+".join(sorted({call_class(c) for c in hist})) or "none"
+    r = R(outcome=f"{r1.outcome}|after:{'+'.join(c[0] for c in hist) or 'nothing'}", nontrivial=True,
+          counts=dict(r1.counts))
+    seen = set()
+    for f in r0.fails:  # direct clause, before the history
+        seen.add(f.key)
+        r.fail(f.key, f.msg)
+    for f in r1.fails:  # direct clause, after the history
+        if f.key not in seen:
+            r.fail(f"after-calls[{hcls}]:{f.key}", f"after the earlier calls {hist!r} (not before them): " + f.msg)
+    # differential clause: same pair, same arguments -> same plan, same image
+    if p0["plan"] != p1["plan"]:
+        r.fail(f"plan-changed-after-calls[{hcls}]",
+               f"compute_reproject_roi gave {p0['plan']} before and {p1['plan']} after the calls {hist!r}: {p1['desc']}")
+    w1 = p1.get("warp")
+    if (w0 is None) != (w1 is None) or (w0 is not None and not _same_img(w0, w1)):
+        r.fail(f"warp-changed-after-calls[{hcls}]:{base[10]}",
+               f"rio_reproject(..., 'nearest') gave {None if w0 is None else w0.tolist()} before and "
+               f"{None if w1 is None else w1.tolist()} after the calls {hist!r}: {p1['desc']}")
+    return r
+
+
+_HISTORY_INNER = e1.Slice("call-history", lambda: (), _run_history)
 
 
 # ---------------------------------------------------------------------------------------------
@@ -480,6 +759,15 @@ def space(tier):
         P(grid=(g,), crs=("wkt",) + OTHER_CRS[GRIDS[g][1]], scales=_same(1, ("0",)) + _same(2, ("0",)),
           shift=((0, 0), (-3, 2)), res=_pairs((("t", 0.0), ("t", 0.9))), dtype=("int16", "bool"))
         for g in grids2
+    ]
+    # 3b. source CRS x destination CRS x which CRS object had .epsg read, on grids that line up exactly
+    Z = ("t", 0.0)
+    sp["crs-pairs"] = [
+        P(grid=[(g, n) for n in names], crs=[("x", n, st) for n in names for st in EPSG_READ],
+          scales=_same(1, ("0",)) + _same(2, ("0",)), mirror=MIRRORS if th else ((1, 1), (-1, 1)),
+          shift=((0, 0), (-3, 2)), res=_pairs((Z, ("t", 0.9))) if th else ((Z, Z), (("t", 0.9), ("t", 0.9))),
+          dtype=("int16", "bool") if th else ("int16",))
+        for g, names in (("M-5km", CRS_NAMES_M), ("G-0.1deg", CRS_NAMES_G))
     ]
     # 4. paste image == warp: every relative placement, int16, default tolerances
     sp["paste-image"] = [
@@ -628,6 +916,10 @@ NOTES = {
                    "of ttol; both x mirror x shifts x 4 tolerance sets",
     "rotation-shear": "rotations 0.5/5/-30/90 deg and shear 0.01 on otherwise paste-able pairs",
     "crs": "dst in another CRS (never paste-able) and in the same CRS spelled as WKT",
+    "crs-pairs": "source CRS x destination CRS over 10 projected definitions (4 custom proj strings, 2 ESRI codes, 2 EPSG codes, "
+                 "2 WKT spellings; 5 km grid) and over 5 geographic ones (custom sphere / Bessel longlat, 4326, 4283, 1 WKT "
+                 "spelling; 0.1 deg grid) x which CRS object had .epsg read beforehand, grids lining up exactly at scale 1 and 2 "
+                 "x mirror x shift x residue within ttol: paste only for same-definition pairs, image clauses for those",
     "paste-image": "scale 1, residue within ttol: per dst shape every placement along x (incl. one disjoint step on "
                    "either side) x 5 y-shifts and the transposed set, x mirror x residue pairs; int16",
     "paste-image-tols": "scale 1 and 1+-0.5*stol under all 4 (ttol, stol) sets, south-up and realistic grid, reduced placements",
@@ -638,6 +930,11 @@ NOTES = {
     "window-edges": "scales n(1+-f*stol), n+-f*stol, (1/n)(1+-f*stol), 1/n+-f*stol and residues +-f*ttol for f in "
                     "{.5,.9,.999,.9995,1.0005,1.001,1.1} x source axis 13/14/64/1000 px (x or y) x mirror x dst overhanging "
                     "far/near/both/contained x stol 1e-3/1e-2 (ttol .05/.2); 2000 px axis with scale n(1+-5e-7), n(1+-2e-5)",
+    "call-history": "every sequence of 0..1 prior public calls over {rio_reproject, xr_reproject} x {nearest, bilinear} x 14 "
+                    "keyword option sets + 4 planner calls with unusual options, x 8 dtypes x {dst larger / mirrored overlap / "
+                    "disjoint} + a non-paste-able pair + a read_shrink 2 pair; every sequence of 2 prior calls over the bilinear "
+                    "warp calls + planner calls (thorough: all calls) x reduced comparisons; clauses judged before and after the "
+                    "history, plan and warped image compared before vs after",
     "shrink": "integer scale 2,3,4 (read_shrink > 1), placements in overview pixels as in paste-image: "
               "roi_src == read_shrink * image(roi_dst)",
 }
@@ -646,7 +943,8 @@ NOTES = {
 def slices(tier):
     sp = space(tier)
     return [e1.Slice(name, _gen(spec), run_case, NOTES[name]) for name, spec in sp.items()] + [
-        e1.Slice("window-edges", gen_edges(tier), run_case, NOTES["window-edges"])]
+        e1.Slice("window-edges", gen_edges(tier), run_case, NOTES["window-edges"]),
+        e1.Slice("call-history", gen_history(tier), run_history, NOTES["call-history"])]
 
 
 def _count(products):
@@ -663,7 +961,8 @@ def main(ctx):
     ctx.rule = (
         "complete Cartesian products over the construction parameters of the dst->src pixel transform (grid, dst shape, "
         "per-axis scale class, mirror, rotation/shear, whole-pixel shift, per-axis residue, tolerance set, dtype, "
-        "planner options padding x align); a case "
+        "planner options padding x align; source CRS x destination CRS x EPSG-slot state; sequences of <= 2 prior public "
+        "calls); a case "
         "is non-trivial when the pair is predicted not paste-able (eligibility decided) or a non-empty paste/shrink "
         "region was judged; distinct by (slice, case) hash"
     )
@@ -679,7 +978,15 @@ def main(ctx):
         "scale_deviation": "0, +-0.5*stol (inside), +-1.5*k*stol (outside); literals 1.5 0.5 2.5 0.25; anisotropic pairs",
         "rotations": ROTS, "dtypes": DTYPES, "padding": PADDINGS, "align": ALIGNS,
         "cases_per_slice": dict({k: _count(v) for k, v in sp.items()},
-                                **{"window-edges": sum(1 for _ in gen_edges(ctx.tier)())}),
+                                **{"window-edges": sum(1 for _ in gen_edges(ctx.tier)()),
+                                   "call-history": sum(1 for _ in gen_history(ctx.tier)())}),
+        "crs_pairs": {"definitions": dict(CRS_DEFS, **{"wkt:<name>": "the same definition spelled as WKT (laea-a, moll)"}),
+                      "projected": CRS_NAMES_M, "geographic": CRS_NAMES_G,
+                      "grids": {k: list(v)[:6] for k, v in XGRIDS.items()}, "epsg_read_before_planning": EPSG_READ},
+        "call_history": {"max_prior_calls": 2, "warp_calls": "api {rio_reproject, xr_reproject} x resampling {nearest, bilinear} "
+                         "x option set", "option_sets": {k: {a: repr(b) for a, b in v.items()} for k, v in OPTSETS.items()},
+                         "planner_calls": PLAN_CALLS,
+                         "length_2_alphabet": "all calls (thorough); bilinear warp calls + planner calls (quick)"},
         "window_edges": {"f": EDGE_F, "source_axis_px": EDGE_N + (2000,), "placements": PLACES, "other_axis": (OTHER_LEN, 3)},
     }
     ctx.assumptions = [
@@ -703,6 +1010,16 @@ def main(ctx):
         "paste is performed with plain numpy slice semantics on roi_src / roi_dst; mirroring is taken from the "
         "construction parameters, never from the result",
         "rotation alphabet stays away from 0 and 180 degrees (180 = mirror in x and y)",
+        "crs-pairs: two CRS objects denote the same CRS only when built from the same definition or from its WKT export; "
+        "the definitions used together differ in projection method, centre or ellipsoid/datum, so every mixed pair is 'another CRS' and must "
+        "not be reported paste-able (a same-definition pair that is not reported is only counted); an object 'whose .epsg "
+        "was read' is a copy (CRS(obj)) of one on which the property was evaluated once in this process",
+        "call-history: the property is a statement about the functions, not about a fresh process - it is demanded after "
+        "any earlier public call (results of the earlier calls themselves are not judged); the clauses are evaluated "
+        "before AND after the history, and plan / warped image must not change across it; the comparison warp goes "
+        "through rio_reproject into a destination pre-filled with a junk value; every history is executed in a forked "
+        "copy of the worker process (discarded afterwards), so it starts from a state in which no unusual option was ever "
+        "passed and cannot influence any other case",
         "padding/align options: the clauses are conditional on what the returned plan says (paste_ok, read_shrink), "
         "whatever options it was requested with; whether paste is offered at all under explicit padding/align is not "
         "judged (the code documents that it is offered only for padding in (None,0) and align in (None,0))",
